@@ -98,6 +98,23 @@ CLAIMED = {
         technique='Lean 4 proof (induction over dotted names and emission sequences, reusing the C11 validation theorem) + differential '
                   'correspondence on generated output specs and emission sequences',
         design='6/C12'),
+    'C14': dict(
+        text='Lean theorems C14_inmem_refines / C14_pickle_refines: for every history of save/load/list/delete operations '
+             'interleaved with progress of the live processes, the model of InMemoryPersister (nested dictionaries) and the model of '
+             'PicklePersister (directory keyed by pickle_filename, listing by suffix filter, delete ignoring absence) return, operation '
+             'by operation, what a map (pid, tag) -> snapshot returns, and stay related to it; corollaries C14_snapshot_immutable_*, '
+             'C14_list_exact_*, C14_delete_idempotent_*, C14_delete_local_*, C14_delete_process_exact_* and '
+             'C14_observational_equivalence (any history satisfying the side condition). C14_filename_injective is proved from '
+             'the side condition (one id kind per history, separator-free string forms) over the file-name templates regenerated '
+             'from the source; C14_separator_needed / C14_one_kind_needed show the side condition cannot be dropped. Both models '
+             'are compared with the two real persisters (real directory, real stepping processes) after every operation of all '
+             'short histories and thousands of random ones, with a full probe of the stored state after each operation.',
+        note='Modelled, not verified: the two persister classes (hand-written Lean mirror, differential check per operation); '
+             'copy.deepcopy / pickle / the file system are exercised through the real code, a snapshot is an abstract value in the '
+             'model. Listings are compared up to order.',
+        technique='Lean 4 refinement proof (two persister models refine a map specification, induction over histories) + '
+                  'differential correspondence on generated histories against both real persisters',
+        design='6/C14'),
 }
 
 PM_NOTE = ('Modelled, not verified: Process.step / step_until_terminated / pause / play / kill / resume / fail / call_soon / '
